@@ -2,6 +2,7 @@
 since it last read the list (kernel of the concurrent-writers property)."""
 from symx.containers import SymDict, SymSet
 from symx.runner import Ob
+from .util import s_and, s_not, s_or
 
 ID = "C05"
 PR = "breezy.bzr.pack_repo"
@@ -14,7 +15,8 @@ STUBS = ["RepositoryPackCollection built with object.__new__; _iter_disk_pack_in
          "set()/dict() of the lifted module are association-list containers (elements compared with ==)"]
 ASSUMPTIONS = ["pack names are short ASCII strings and index sizes small non-negative integers; equalities between the "
                "three collections are decided by the solver",
-               "within one collection a pack name occurs once"]
+               "within one collection a pack name occurs once, and a pack name identifies its content: the same name "
+               "never carries different index sizes in two collections"]
 OUTSIDE = ["interleavings of pack-names reads/writes, renames and obsolete-pack cleanup between processes (concurrency "
            "over real I/O)", "collections larger than the bound"]
 
@@ -50,40 +52,54 @@ def _mk(cx):
         names[nm] = sz
     c._names = names
     c._iter_disk_pack_index = lambda: [(None, (nm.encode("ascii"),), _value(sz)) for nm, sz in disk]
+    _same_content(cx, [at_load, mine, disk])
     return P, c, at_load, mine, disk
 
 
-def _in(cx, node, coll):
-    nm, sz = node
-    return any(cx.truth(nm == n2) and cx.truth(sz[0] == s2[0]) and cx.truth(sz[1] == s2[1]) for n2, s2 in coll)
+def _eq(x, y):
+    """node equality as a (possibly symbolic) boolean, without forking."""
+    return s_and([x[0] == y[0], x[1][0] == y[1][0], x[1][1] == y[1][1]])
 
 
-def _has(cx, result, node):
+def _in(node, coll):
+    return s_or([_eq(node, y) for y in coll])
+
+
+def _has(result, node):
     nm, sz = node
     v = _value(sz)
-    return any(cx.truth(nm == rn) and cx.truth(rv == v) for rn, rv in result)
+    return s_or([s_and([nm == rn, rv == v]) for rn, rv in result])
+
+
+def _same_content(cx, colls):
+    """A pack name identifies its content: the same name never carries different index sizes."""
+    allnodes = [x for c in colls for x in c]
+    for i, x in enumerate(allnodes):
+        for y in allnodes[:i]:
+            cx.assume(s_or([s_not(x[0] == y[0]), s_and([x[1][0] == y[1][0], x[1][1] == y[1][1]])]))
+
+
+def _iff(a, b):
+    return s_or([s_and([a, b]), s_and([s_not(a), s_not(b)])])
 
 
 def _check_merge(cx, result, at_load, mine, disk):
     universe = at_load + mine + disk
+    result = list(result)
     for x in universe:
-        want = (_in(cx, x, mine) and not _in(cx, x, at_load)) or \
-               (_in(cx, x, disk) and not (_in(cx, x, at_load) and not _in(cx, x, mine)))
-        got = _has(cx, result, x)
-        cx.require(got == want, "node %s the merged pack list although the three-way merge says otherwise" %
-                   ("is in" if got else "is missing from"))
+        want = s_or([s_and([_in(x, mine), s_not(_in(x, at_load))]),
+                     s_and([_in(x, disk), s_not(s_and([_in(x, at_load), s_not(_in(x, mine))]))])])
+        cx.require(_iff(_has(result, x), want),
+                   "a node is in / missing from the merged pack list although the three-way merge says otherwise")
     for rn, rv in result:
-        cx.require(any(cx.truth(rn == nm) and cx.truth(rv == _value(sz)) for nm, sz in universe),
+        cx.require(s_or([s_and([rn == nm, rv == _value(sz)]) for nm, sz in universe]),
                    "merged pack list contains a node that is in none of the inputs")
-    if all(_in(cx, x, at_load) for x in mine) and all(_in(cx, x, mine) for x in at_load):
-        cx.require(len(list(result)) == len(disk), "a process without changes of its own did not adopt the on-disk list")
-        cx.cover("pure_reload")
-    if any(_in(cx, x, disk) and not _in(cx, x, at_load) for x in disk):
-        cx.cover("other_added")
-    if any(not _in(cx, x, at_load) for x in mine):
-        cx.cover("mine_added")
-    if any(not _in(cx, x, mine) for x in at_load):
-        cx.cover("mine_deleted")
+    # a process without changes of its own adopts the on-disk list
+    unchanged = s_and([_in(x, at_load) for x in mine] + [_in(x, mine) for x in at_load])
+    cx.require(s_or([s_not(unchanged), len(result) == len(disk)]),
+               "a process without changes of its own did not adopt the on-disk list")
+    if at_load and mine and disk:
+        cx.cover("all_nonempty")
 
 
 def ob_diff(cx):
@@ -91,9 +107,9 @@ def ob_diff(cx):
     disk_nodes, deleted, new, orig = c._diff_pack_names()
     _check_merge(cx, list(disk_nodes), at_load, mine, disk)
     for dn, dv in deleted:
-        cx.require(any(cx.truth(dn == nm) and cx.truth(dv == _value(sz)) for nm, sz in at_load), "deleted node was never loaded")
+        cx.require(s_or([s_and([dn == nm, dv == _value(sz)]) for nm, sz in at_load]), "deleted node was never loaded")
     for nn, nv in new:
-        cx.require(not any(cx.truth(nn == nm) and cx.truth(nv == _value(sz)) for nm, sz in at_load), "new node was already loaded")
+        cx.require(s_not(s_or([s_and([nn == nm, nv == _value(sz)]) for nm, sz in at_load])), "new node was already loaded")
     cx.require(len(list(orig)) == len(disk), "orig_disk_nodes is not the on-disk list")
     cx.observe("n", (len(list(disk_nodes)), len(list(deleted)), len(list(new))))
 
@@ -170,14 +186,14 @@ def ob_save(cx):
         sz = c._names[nm]
         cx.require(_value(sz) == v, "in-memory sizes differ from the written value")
     for nm in newly:
-        cx.require(any(cx.truth(nm == m) for m, _ in mine), "reported a pack it did not add as newly saved")
+        cx.require(s_or([nm == m for m, _ in mine]), "reported a pack it did not add as newly saved")
     cx.observe("nwritten", len(written))
     cx.cover("saved")
 
 
 def obligations(tier):
     q = tier == "quick"
-    p = dict(n=2, alpha="abc", maxsize=99 if q else 999)
+    p = dict(n=2, alpha="abc", maxsize=9)
     p2 = dict(n=2 if q else 2, alpha="ab", maxsize=9)
     to = 900 if q else 7200
     lift = [(PR, dict(symdict=True))]
@@ -185,7 +201,7 @@ def obligations(tier):
         p["n"] = 3
         p["maxsize"] = 9
     return [
-        Ob("diff_pack_names", ob_diff, lift, p, to, 4 if q else 10, ["pure_reload", "other_added", "mine_added", "mine_deleted"],
+        Ob("diff_pack_names", ob_diff, lift, p, to, 4 if q else 10, ["all_nonempty"],
            bounds="<= %(n)d nodes in each of at-load / in-memory / on-disk; names 1 char over %(alpha)r; two index sizes "
                   "0..%(maxsize)d each" % p),
         Ob("save_pack_names", ob_save, lift, p2, to, 4 if q else 10, ["saved"],
